@@ -106,24 +106,34 @@ func (w *world) decode(p pkt) (outs []outJ, panicMsg string) {
 			panicMsg = fmt.Sprint(r)
 		}
 	}()
+	// Which data positions can this call reconstruct? Those absent from the decoder's current shard set (plus this
+	// packet). The decoder emits them in ascending position order; each output is then verified byte for byte (with its
+	// exact length) against the original at the position it stands for.
+	st := w.dec.State()
+	n := uint32(st.DataShards + st.ParityShards)
+	present := map[int]bool{int(p.Seq % n): true}
+	for _, s := range st.Sets[p.Seq/n] {
+		present[int(s%n)] = true
+	}
+	var missing []int
+	for k := 0; k < st.DataShards; k++ {
+		if !present[k] {
+			missing = append(missing, k)
+		}
+	}
 	rec := w.dec.Decode(append([]byte(nil), p.raw...))
-	for _, r := range rec {
+	for i, r := range rec {
 		o := outJ{Gid: -1, Idx: -1}
 		if len(r) >= 2 {
 			sz := int(binary.LittleEndian.Uint16(r))
-			// an original data packet of the group this packet belongs to, byte for byte with its exact length
-			for idx := 0; idx < w.ed; idx++ {
-				if ob, ok := w.orig[[2]int{p.Gid, idx}]; ok && sz == len(ob) && sz <= len(r) && bytes.Equal(r[:sz], ob) {
-					o = outJ{Gid: p.Gid, Idx: idx, Ok: true}
+			if len(rec) == len(missing) {
+				if ob, ok := w.orig[[2]int{p.Gid, missing[i]}]; ok && sz == len(ob) && sz <= len(r) && bytes.Equal(r[:sz], ob) {
+					o = outJ{Gid: p.Gid, Idx: missing[i], Ok: true}
 				}
 			}
 			if !o.Ok {
-				// maybe an original of another group (would still be wrong for this group), else garbage
-				for k, ob := range w.orig {
-					if sz == len(ob) && sz <= len(r) && bytes.Equal(r[:sz], ob) {
-						o = outJ{Gid: k[0], Idx: k[1], Ok: false}
-					}
-				}
+				// not the expected original: an original of some group at some position (still wrong), else garbage
+				// (garbage has no identity: reported as -1/-1)
 			}
 		}
 		outs = append(outs, o)
@@ -251,7 +261,8 @@ func (w *world) record(tr *vh.Trace, name string, p *pkt, outs []outJ, emitted [
 }
 
 func resetMeta(w *world, src string, base uint32, calm int) map[string]any {
-	return map[string]any{"ed": w.ed, "ep": w.ep, "dd": w.dd, "dp": w.dp, "src": src, "start": int64(int32(w.start - base)), "calm": calm}
+	return map[string]any{"ed": w.ed, "ep": w.ep, "dd": w.dd, "dp": w.dp, "src": src, "start": int64(int32(w.start - base)), "calm": calm,
+		"nearwrap": w.start != 0} // positioned runs: relative ids are not congruent modulo every group size -> judged by FecObs only
 }
 
 func readBehaviours(path string) ([]fBeh, error) {
